@@ -40,6 +40,11 @@ def cases(draw, tier="quick"):
     pool = [draw(extgen.extensions(name=n, max_defs=3, min_ops=1, min_types=1)) for n in names]
     for e in pool:
         e["values"] = []
+        for td in e["types"]:
+            # from-params bounds naming no parameter (join of nothing = copyable) are rare in the
+            # shared generator; resolution must not change them either
+            if td["bound"]["b"] == "F" and draw(st.integers(0, 3)) == 0:
+                td["bound"] = {"b": "F", "idx": []}
     tdefs = [dict(td) for e in pool for td in e["types"]]
 
     def ext_type(depth):
